@@ -151,6 +151,7 @@ func TxHash(n int) string { return fmt.Sprintf("0x%064x", n) }
 const (
 	Contract1 = "0x0E65079a29d7793ab5CA500c2d88e60EE99bA606"
 	Contract2 = "0x1111111111111111111111111111111111111111"
+	Contract3 = "0x2222222222222222222222222222222222222222"
 )
 
 // Denoms of the prepared seed.
